@@ -1137,6 +1137,10 @@ func (vc *VC) execBlock(fr *Frame, b *ssa.BasicBlock, st *State, in map[*ssa.Bas
 					cur = vc.eng.lineTextFull(vc.pos(ins.Pos()))
 				}
 				_, isTerm := ins.(*ssa.Jump)
+				if _, isIf := ins.(*ssa.If); isIf {
+					// `if x := f(); cond {`: the line ends with the branch itself
+					isTerm = true
+				}
 				if prevLine != "" && ((cur != "" && cur != prevLine) || isTerm) {
 					vc.afterAnchors(fr, st, prevLine, ins, fired)
 				}
